@@ -13,6 +13,7 @@
 #pragma once
 #if defined(__has_include)
 #if __has_include(<valgrind/memcheck.h>)
+#include <sys/mman.h>
 #include <time.h>
 #include <valgrind/memcheck.h>
 #define VP_HAVE_VALGRIND 1
@@ -378,6 +379,22 @@ struct Block {
     explicit Block(size_t size, int fill = 0xa5) : n(size) { p = (uint8_t *)malloc(size ? size : 1); memset(p, fill, size ? size : 1); }
     Block(const Block &) = delete; Block &operator=(const Block &) = delete;
     ~Block() { free(p); }
+};
+
+// Read-only block: the octets sit at the very end of a private mapping that is then made PROT_READ (what a const table in flash or a
+// file mapped read-only looks like to the code): a function that is handed input must not write to it, not even temporarily.
+struct RoBlock {
+    uint8_t *p = nullptr; size_t n = 0; void *map = nullptr; size_t maplen = 0;
+    RoBlock(const void *data, size_t size) : n(size) {
+        size_t page = 4096; maplen = ((size ? size : 1) + page - 1) / page * page;
+        map = mmap(nullptr, maplen, PROT_READ | PROT_WRITE, MAP_PRIVATE | MAP_ANONYMOUS, -1, 0);
+        if (map == MAP_FAILED) { map = nullptr; p = nullptr; return; }
+        p = (uint8_t *)map + maplen - size;
+        if (size) memcpy(p, data, size);
+        mprotect(map, maplen, PROT_READ);
+    }
+    RoBlock(const RoBlock &) = delete; RoBlock &operator=(const RoBlock &) = delete;
+    ~RoBlock() { if (map) munmap(map, maplen); }
 };
 
 // callback budget: harness-owned callbacks call tick(); exceeding the budget
